@@ -19,7 +19,15 @@ def run(ctx):
     for cname, it in (("KdqTreeStreaming", "stream"), ("KdqTreeBatch", "batch")):
         evaluate(ctx, cname, it)
         reference(ctx, cname, it)
+        accumulation(ctx, cname, it)
+    # the divergence is taken over the leaves of the reference tree: the partitioner's build / fill / leaf distribution rules
+    c08.build(ctx)
     c08.fill(ctx)
+    c08.dist(ctx)
+    c08.wrappers(ctx)
+    bootstrap_chain(ctx)
+    wrappers(ctx)
+    lifecycle(ctx)
 
 
 def critical(ctx):
@@ -135,3 +143,156 @@ def reference(ctx, cname, it):
     part = [e for e in tr.calls() if e.callee == ("new", "KDQTreePartitioner")]
     ok = len(part) == 1 and dict(part[0].kwargs).get("count_ubound") == A("count_ubound") and dict(part[0].kwargs).get("cutpoint_proportion_lbound") == A("cutpoint_proportion_lbound")
     ctx.ob("FWD", site, "partitioner gets the detector's count_ubound and cutpoint bound [%s]" % cname, ok, "")
+
+
+# ---------------------------------------------------------------------------
+# reference accumulation, bookkeeping stores, bootstrap histogram chain, wrappers, lifecycle
+
+def _mchain(t):
+    """[(method, args, kwargs), ...] outermost first, and the innermost receiver, of a chain of method calls."""
+    out = []
+    a = t.single_atom() if t is not None else None
+    while a is not None and a[0] == "mcall":
+        out.append((a[2], a[3], dict(a[4])))
+        t = a[1]
+        a = t.single_atom()
+    return out, t
+
+
+def accumulation(ctx, cname, it):
+    site = DET + "._evaluate_kdqtree"
+    tr = ctx.trace(cname, "update", assume={"_drift_state": None, "_kdqtree": None}, nonnull=("X",))
+    st = [e for e in tr.stores("_ref_data") if e.func.qualname == site]
+    ary = None
+    cs = [e for e in tr.calls() if e.d.get("fi") is not None and e.fi.qualname == site]
+    if cs:
+        ary = cs[0].args[1] if len(cs[0].args) > 1 and cs[0].args[0].single_atom() == ("self",) else cs[0].args[0]
+    ok = False
+    if len(st) == 1 and ary is not None:
+        rd = A("_ref_data")
+        stacked = atom(("call", "numpy.vstack", (atom(("list", (rd, ary))),), ()))
+        v = st[0].value
+        leaves = list(q.ite_leaves(v))
+        ok = len(leaves) == 2 and {T.akey(l) for _c, l in leaves} == {T.akey(stacked), T.akey(ary)}
+        if ok:
+            for c_, l in leaves:
+                size = atom(("getattr", rd, "size"))
+                pos = any(x == size or q.pred_equiv(x, T.mk_cmp("!=", size, const(0))) or (x.single_atom() or ("",))[0] in ("truth", "bool") and x.single_atom()[1] == size for x in c_)
+                ok = ok and (pos == (l == stacked))
+    ctx.ob("FRM", site, "reference samples are collected in arrival order (stacked below what is already held) [%s]" % cname, ok, q.short(st[0].value, 160) if st else "", st[0] if st else None)
+    if cs:
+        ctx.ob("FWD", cname + ".update", "the evaluation is told whether it runs on a stream or on batches [%s]" % cname, cs[0].args[-1] == const(it), q.short(cs[0].args[-1], 30), cs[0])
+        xv = q.validated(tr, 0)
+        ctx.ob("FWD", cname + ".update", "the data evaluated is a private copy of the validated input [%s]" % cname,
+               xv is not None and ary == atom(("call", "copy.deepcopy", (xv,), ())), q.short(ary, 80) if ary is not None else "", cs[0])
+    site2 = DET + "._inner_set_reference"
+    clr = [e for e in tr.stores("_ref_data") if e.func.qualname == site2]
+    empty = atom(("call", "numpy.array", (atom(("list", ())),), ()))
+    if it == "stream":
+        ctx.ob("PAIR", site2, "streaming: the collected window is released once the tree is built", len(clr) == 1 and clr[0].value == empty, "", clr[0] if clr else None)
+    else:
+        ctx.ob("PAIR", site2, "batch: nothing else touches the collected reference", not clr, "", clr[0] if clr else None)
+    # test path: the divergence of this update is what is published
+    tr2 = ctx.trace(cname, "update", assume={"_drift_state": None}, nonnull=("X",))
+    kl = [e for e in tr2.calls() if e.callee[0] == "foreign" and e.callee[2] == "kl_distance"]
+    td = [e for e in tr2.stores("_test_dist") if e.func.qualname == site]
+    ctx.ob("FRM", site, "the divergence computed is the one published as test distance [%s]" % cname, len(kl) == 1 and len(td) == 1 and td[0].value == kl[0].result, "", td[0] if td else None)
+    fl = [e for e in tr2.calls() if e.callee[0] == "foreign" and e.callee[2] == "fill"]
+    tree = A("_kdqtree")
+    for e, what in ((fl[0] if fl else None, "test data is filled"), (kl[0] if kl else None, "the divergence is computed")):
+        if e is None:
+            continue
+        ctx.ob("GRD", site, "%s only when a reference tree exists [%s]" % (what, cname), q.has_guard(e, T.mk_cmp("!=", tree, T.NONE)), "", e)
+        ctx.ob("FWD", site, "%s on the detector's tree [%s]" % (what, cname), q.unmut(e.recv) == tree, q.short(e.recv, 60), e)
+    if fl and cs:
+        cs2 = [e for e in tr2.calls() if e.d.get("fi") is not None and e.fi.qualname == site]
+        a2 = cs2[0].args[1] if cs2 and len(cs2[0].args) > 1 and cs2[0].args[0].single_atom() == ("self",) else (cs2[0].args[0] if cs2 else None)
+        ctx.ob("FWD", site, "the data of this update is what is filled [%s]" % cname, a2 is not None and fl[0].args[:1] == (a2,), "", fl[0])
+
+
+def bootstrap_chain(ctx):
+    site = DET + "._get_critical_kld"
+    tr = ctx.trace("KdqTreeBatch", "_get_critical_kld")
+    ch = [e for e in tr.calls() if e.callee == ("lib", "numpy.random.choice")]
+    dc = [e for e in tr.calls() if e.d.get("fi") is not None and e.fi.name == "_distn_from_counts"]
+    if len(ch) != 1 or len(dc) != 3:
+        return  # reported by critical()
+    bins = atom(("call", "list", (atom(("call", "range", (atom(("call", "len", (P("ref_counts"),), ())),), ())),), ()))
+    ctx.ob("FRM", site, "the draw is over the leaf indices 0..k-1", ch[0].args[:1] == (bins,), q.short(ch[0].args[0], 80) if ch[0].args else "", ch[0])
+    n = P("sample_size")
+    want_halves = [atom(("slice", T.NONE, n, T.NONE)), atom(("slice", n, T.NONE, T.NONE))]
+    seen = []
+    for e in dc[1:]:
+        a = e.args[0].single_atom()
+        ok = a is not None and a[0] == "sub" and a[2] == const("count")
+        chain, base = _mchain(a[1]) if ok else ([], None)
+        names = [c_[0] for c_ in chain]
+        ok = ok and names == ["sort_values", "fillna", "merge"]
+        if ok:
+            sv, fn, mg = chain
+            ok = sv[2].get("by") == const("leaf") and fn[1] == (const(0),) and mg[2].get("on") == const("leaf") and mg[2].get("how") == const("outer")
+            allbins = mg[1][0].single_atom() if mg[1] else None
+            ok = ok and allbins is not None and allbins[0] == "call" and allbins[1] == "pandas.DataFrame" and q.sub(allbins[2][0], const("leaf")) == bins
+            b = base.single_atom()
+            ok = ok and b is not None and b[0] == "call" and b[1] == "pandas.DataFrame"
+            if ok:
+                lf, ct = q.sub(b[2][0], const("leaf")), q.sub(b[2][0], const("count"))
+                la, ca = lf.single_atom(), ct.single_atom()
+                ok = la is not None and ca is not None and la[0] == "sub" and ca[0] == "sub" and la[1] == ca[1] and la[2] == const(0) and ca[2] == const(1)
+                if ok:
+                    u = la[1].single_atom()
+                    ok = u is not None and u[0] == "call" and u[1] == "numpy.unique" and dict(u[3]).get("return_counts") == T.TRUE
+                    if ok:
+                        h = u[2][0].single_atom()
+                        ok = h is not None and h[0] == "sub" and h[1] == ch[0].result
+                        seen.append(h[2] if ok else None)
+        ctx.ob("FRM", site, "each half becomes a histogram over ALL leaves in leaf order (missing leaves 0) before the correction", ok,
+               "merge(all leaves, on=leaf, how=outer) . fillna(0) . sort_values(by=leaf) . ['count'] expected; found %s" % q.short(e.args[0], 200), e)
+    ctx.ob("PARTITION", site, "the two histograms come from the two halves of the same draw", sorted(map(T.akey, [s for s in seen if s is not None])) == sorted(map(T.akey, want_halves)), "")
+    # the pair appended is (first half, second half) and the divergence is taken in that order
+    en = [e for e in tr.calls() if e.callee == ("lib", "scipy.stats.entropy")]
+    ap = [e for e in tr.of("localmut") if e.how == "method:append" and e.func.qualname == site]
+    ok = len(ap) == 1 and len(en) == 1
+    if ok:
+        pr = ap[0].value.single_atom()[1][0].single_atom()
+        ok = pr is not None and pr[0] in ("list", "tuple") and len(pr[1]) == 2 and c08._is_ret(tr, dc[1], pr[1][0]) is not None
+    ctx.ob("FRM", site, "one pair of corrected distributions is recorded per bootstrap repetition", ok, "", ap[0] if ap else None)
+
+
+def wrappers(ctx):
+    for cname in ("KdqTreeStreaming", "KdqTreeBatch"):
+        tr = ctx.trace(cname, "to_plotly_dataframe")
+        fc = [e for e in tr.calls() if e.callee[0] == "foreign" and e.callee[2] == "to_plotly_dataframe"]
+        ok = len(fc) == 2
+        if ok:
+            given = T.mk_cmp("!=", P("input_cols"), T.NONE)
+            for e in fc:
+                cols = e.args[3] if len(e.args) > 3 else dict(e.kwargs).get("input_cols")
+                if q.has_guard(e, given):
+                    ok = ok and cols == P("input_cols")
+                else:
+                    ok = ok and q.has_guard(e, T.mk_not(given)) and cols == A("_input_cols")
+                ok = ok and tuple(e.args[:3]) == (P("tree_id1"), P("tree_id2"), P("max_depth"))
+        ctx.ob("FWD", DET + ".to_plotly_dataframe", "column names given by the caller are used, else those seen at validation [%s]" % cname, ok, "")
+    ti = ctx.trace("KdqTreeStreaming", "__init__")
+    rs = [e for e in ti.raises() if e.exc == "ValueError" and e.func.qualname == "KdqTreeStreaming.__init__"]
+    ws = P("window_size")
+    bad = T.mk_or([T.mk_not(atom(("call", "isinstance", (ws, atom(("global", "builtins.int"))), ()))), T.mk_cmp("<", ws, const(1))])
+    ok = len(rs) == 1 and any(g == bad or q.pred_equiv(g, bad) for g in [T.mk_and(guards(rs[0]))] + guards(rs[0]))
+    ctx.ob("GRD", "KdqTreeStreaming.__init__", "window_size must be an integer >= 1", ok, "guards: %s" % "; ".join(q.short(g, 80) for e in rs for g in guards(e)), rs[0] if rs else None)
+    tb = ctx.trace("KdqTreeBatch", "set_reference", nonnull=("X",))
+    xv = q.validated(tb, 0)
+    cs = q.find_calls(tb, DET + "._inner_set_reference")
+    ok = len(cs) == 1 and xv is not None and cs[0].args[:1] == (atom(("call", "copy.deepcopy", (xv,), ())),) and dict(cs[0].kwargs).get("input_type", cs[0].args[1] if len(cs[0].args) > 1 else None) == const("batch")
+    ctx.ob("FWD", "KdqTreeBatch.set_reference", "the reference tree is built from a private copy of the validated batch, in batch mode", ok, "")
+
+
+def lifecycle(ctx):
+    from . import common
+    common.lifecycle(ctx, ["KdqTreeStreaming", "KdqTreeBatch"])
+    for cname in ("KdqTreeStreaming", "KdqTreeBatch"):
+        tab = {"_test_data_size": 0, "_kdqtree": T.NONE, "_critical_dist": T.NONE, "_test_dist": T.NONE,
+               "_ref_data": atom(("call", "numpy.array", (atom(("list", ())),), ()))}
+        if cname == "KdqTreeStreaming":
+            tab["_drift_counter"] = 0
+        common.init_table(ctx, cname, tab)
